@@ -55,6 +55,37 @@ class NpShim:
             return x.sqrt()
         return np.sqrt(x)
 
+    def array(self, x, *a, **k):
+        arr = np.array(x, *a, **k)
+        if not a and 'dtype' not in k and arr.dtype.kind in 'fiu':
+            arr = arr.astype(object)      # numeric arrays built inside bt may later receive symbolic reals (in-place +=)
+        return arr
+
+    @property
+    def linalg(self):
+        return _Linalg()
+
+
+class _Linalg:
+    """inverse / pseudo-inverse are computed by real numpy on concrete tables"""
+    def __getattr__(self, k):
+        return getattr(np.linalg, k)
+
+    def _f(self, m):
+        m = np.asarray(m)
+        if m.dtype == object:
+            if _has_sym(m):
+                from .sym import Unsupported
+                raise Unsupported('matrix inverse of a symbolic table')
+            m = m.astype(float)
+        return m
+
+    def inv(self, m):
+        return np.linalg.inv(self._f(m))
+
+    def pinv(self, m):
+        return np.linalg.pinv(self._f(m))
+
 
 def _frame_has_obj(x):
     if isinstance(x, pd.Series):
